@@ -1,16 +1,19 @@
 INIT MutInit
 NEXT MutNext
 CONSTANTS
-  Formats = {"jws", "jwe", "jwk", "ocspresp", "ocspreq", "jsonplus", "rtmpchunk", "rtmpmsg", "amf0", "flv", "flvtag", "aac", "avc", "ws"}
-  SeedCap = 1
+  Formats = {"rtmpchunk", "rtmpmsg", "amf0", "flv", "flvtag", "aac", "avc", "ws", "jws", "jwe", "jwk", "ocspresp", "ocspreq", "jsonplus"}
+  SeedCap = 100
   MaxMut = 1
   Ops1 = {"trunc", "set", "ins", "drop", "dup", "splice", "nest", "field", "header", "tlv", "random"}
   Ops2 = {}
-  NestDepths = {1, 16, 256}
+  NestDepths = {1, 2, 16, 256}
+  SpliceWindow = 8
+  StructAllSeeds = FALSE
   SpliceOther = FALSE
   RandLens = {0, 1, 2, 3, 7, 64, 1000, 65536}
   NRand = 2
   NodeIdx = {}
+  ByteOpsAllSeeds = FALSE
   PanicOnForbidden = FALSE
   ScaleSkip = {}
   ByteSizes <- NoSizes
